@@ -72,7 +72,7 @@ def q_c03_reconcile_validation(bodies):
         paths = ex.run(body, args)
     except ValueError as e:
         return dict(name=name, property="C03", verdict="inconclusive", detail=str(e), functions=[body.name])
-    accept = "(or false %s)" % " ".join("(and true %s %s)" % (" ".join(pc), mk_v2b(ret)) for pc, ret, _ in paths)
+    accept = "(or false %s)" % " ".join("(and true %s %s)" % (" ".join(pc), mk_v2b(ret)) for pc, ret, _c, _e in paths)
     entry = mk_deref(args[2])
     results = {}
     # G1: accepted => validate_entry(.., this entry, ..) returned Ok, with the captured clock/namespace
@@ -218,3 +218,687 @@ def q_c10_bob_outcome(bodies):
 
 
 QUERIES["C10"] = [q_c10_bob_outcome]
+
+
+# ------------------------------------------------------------------------------------------------
+# C14: open/close counting and the sticky sync switch (OpenReplicas::open_with / close)
+# ------------------------------------------------------------------------------------------------
+
+def _tracing_off_models():
+    """tracing/log macros: every enabled-check answers 'disabled' (their expansions are loop-free
+    side paths that rejoin); formatting helpers are opaque."""
+    f = lambda ex, v: "(b2v false)"  # noqa
+    t = lambda ex, v: "(b2v true)"  # noqa
+    return {
+        r"PartialOrd<.*LevelFilter>>::le$": f,
+        r"Interest::is_never$": t,
+        r"__macro_support::__is_enabled$": f,
+        r"dispatcher::has_been_set$": t,
+        r"Log>::enabled$": f,
+    }
+
+
+def q_c14_open_close(bodies):
+    """C14: the real `OpenReplicas::open_with` and `OpenReplicas::close` (loop-free MIR; the HashMap
+    entry API is modelled: `entry()` yields an Occupied or Vacant entry, `get_mut` a reference to
+    the stored state, writes through it are tracked in a path-local heap).  Decided:
+      close:  not open  -> returns true, removes nothing, writes nothing;
+              open      -> handles' = handles.wrapping_sub(1); returns (handles' == 0); the entry is removed iff handles' == 0;
+                           the sync flag is not written;
+      open_with: open   -> handles' = handles + 1; sync' = sync || opts.sync; the store callback is not called;
+                 not open -> the inserted state has handles = 1 and sync = opts.sync."""
+    import re as _re
+    name = "c14_open_close"
+    closes = find_body(bodies, r"actor::<impl at src/actor\.rs:\d+:\d+: \d+:\d+>::close$", r"OpenReplicas.*-> bool")
+    opens = find_body(bodies, r"actor::<impl at src/actor\.rs:\d+:\d+: \d+:\d+>::open_with$", r"OpenReplicas")
+    if len(closes) != 1 or len(opens) != 1:
+        return dict(name=name, property="C14", verdict="inconclusive", detail="bodies not found uniquely (%d, %d)" % (len(closes), len(opens)), functions=[])
+    problems, nq = [], 0
+
+    def mk():
+        smt = Smt()
+        smt.fun("discr", 1)
+        smt.fun("fld_1", 1)
+        smt.fun("fld_2", 1)
+        smt.fun("wsub1", 1)
+        smt.fun("add1", 1)
+        log = {"removed": [], "inserted": [], "cb": []}
+
+        def m_entry(ex, v):
+            return smt.const("entry")
+
+        def m_get_mut(ex, v):
+            return "(ref (state_of %s))" % mk_deref(v[0]) if False else "(%s %s)" % (smt.fun("stateref", 1), mk_deref(v[0]))
+
+        def m_remove(ex, v):
+            log["removed"].append(v[0])
+            return smt.const("removed")
+
+        def m_insert(ex, v):
+            log["inserted"].append(v)
+            return smt.const("inserted_ref")
+
+        def m_wsub(ex, v):
+            return "(wsub1 %s)" % v[0] if v[1].startswith("k_1") or "1_usize" in v[1] else smt.const("wsub_other")
+
+        def m_cb(ex, v):
+            log["cb"].append(v)
+            return smt.const("cb_result")
+
+        models = dict(_tracing_off_models())
+        models.update({
+            r"HashMap::<.*>::entry$": m_entry,
+            r"OccupiedEntry::<.*>::get_mut$": m_get_mut,
+            r"OccupiedEntry::<.*>::remove_entry$": m_remove,
+            r"VacantEntry::<.*>::insert$": m_insert,
+            r"wrapping_sub$": m_wsub,
+            r"FnMut<\(\)>>::call_mut$": m_cb,
+        })
+        return smt, models, log
+
+    def is_occ(pc):
+        return any(("discr" in c and "int_0" in c and not c.startswith("(not")) for c in pc) or any(c.startswith("(and (not") and "int_1" in c for c in pc)
+
+    # ---------------- close ----------------
+    smt, models, log = mk()
+    ex = Exec(bodies, smt, models=models, max_paths=4000)
+    args = [smt.const("self_ref"), smt.const("namespace")]
+    try:
+        paths = ex.run(closes[0], args)
+    except ValueError as e:
+        return dict(name=name, property="C14", verdict="inconclusive", detail="close: %s" % e, functions=[closes[0].name])
+    n_occ = n_vac = 0
+    for pc, ret, calls, env in paths:
+        callees = [c[0] for c in calls]
+        occupied = any("OccupiedEntry" in c and "get_mut" in c for c in callees)
+        removed = any("remove_entry" in c for c in callees)
+        writes = env.get("__writes", [])
+        pcs = " ".join(pc) if pc else "true"
+        if not occupied:
+            n_vac += 1
+            nq += 1
+            v, _ = solve(smt.script("(and %s (not %s))" % (pcs, mk_v2b(ret))))
+            if v != "unsat":
+                problems.append(("close of a document that is not open returns true", v))
+            if writes or removed:
+                problems.append(("close of a document that is not open changes nothing", "structural"))
+        else:
+            n_occ += 1
+            hw = [w for w in writes if w[1] == "2"]
+            sw = [w for w in writes if w[1] == "1"]
+            if sw:
+                problems.append(("close does not touch the sync flag", "structural"))
+            if len(hw) != 1:
+                problems.append(("close writes the handle count exactly once", "structural"))
+                continue
+            ref, _f, newv = hw[0]
+            old = "(fld_2 %s)" % mk_deref(ref)
+            nq += 2
+            v, _ = solve(smt.script("(and %s (not (= %s (wsub1 %s))))" % (pcs, newv, old)))
+            if v != "unsat":
+                problems.append(("every close of an open document releases exactly one handle", v))
+            zero = "(= %s %s)" % (newv, ex._konst("0_usize"))
+            v, _ = solve(smt.script("(and %s (not (= %s %s)))" % (pcs, mk_v2b(ret), zero)))
+            if v != "unsat":
+                problems.append(("close reports whether the document is closed afterwards", v))
+            nq += 1
+            v, _ = solve(smt.script("(and %s (not (= %s %s)))" % (pcs, "true" if removed else "false", zero)))
+            if v != "unsat":
+                problems.append(("the document is removed exactly when its last handle is released", v))
+    if n_occ == 0 or n_vac == 0:
+        problems.append(("close: both the open and the not-open case are explored (occ=%d, vac=%d)" % (n_occ, n_vac), "vacuous"))
+    close_paths = len(paths)
+
+    # ---------------- open_with ----------------
+    smt, models, log = mk()
+    ex = Exec(bodies, smt, models=models, max_paths=4000)
+    args = [smt.const("self_ref"), smt.const("namespace"), smt.const("opts"), smt.const("open_cb")]
+    try:
+        paths = ex.run(opens[0], args)
+    except ValueError as e:
+        return dict(name=name, property="C14", verdict="inconclusive", detail="open_with: %s" % e, functions=[opens[0].name])
+    opt_sync = "(fld_0 %s)" % args[2]
+    smt.fun("fld_0", 1)
+    n_occ = n_vac = 0
+    for pc, ret, calls, env in paths:
+        callees = [c[0] for c in calls]
+        occupied = any("OccupiedEntry" in c and "get_mut" in c for c in callees)
+        called_cb = any("call_mut" in c for c in callees)
+        writes = env.get("__writes", [])
+        pcs = " ".join(pc) if pc else "true"
+        if occupied:
+            n_occ += 1
+            if called_cb:
+                problems.append(("an additional open does not reload the document from the store", "structural"))
+            hw = [w for w in writes if w[1] == "2"]
+            sw = [w for w in writes if w[1] == "1"]
+            if len(hw) != 1 or len(sw) != 1:
+                problems.append(("an additional open writes the handle count and the sync flag once each (handles=%d, sync=%d)" % (len(hw), len(sw)), "structural"))
+                continue
+            ref = hw[0][0]
+            old_h = "(fld_2 %s)" % mk_deref(ref)
+            old_s = "(fld_1 %s)" % mk_deref(ref)
+            # handles' = old + 1 : the written value is field 0 of AddWithOverflow(old, 1)
+            nq += 2
+            newh = hw[0][2]
+            ok_h = ("op_AddWithOverflow %s" % old_h) in newh or ("op_Add %s" % old_h) in newh
+            if not ok_h:
+                problems.append(("every open adds exactly one handle", "structural: wrote %s" % newh[:80]))
+            news = sw[0][2]
+            v, _ = solve(smt.script("(and %s (not (= %s (or %s %s))))" % (pcs, mk_v2b(news), mk_v2b(old_s), mk_v2b(opt_sync))))
+            if v != "unsat":
+                problems.append(("enabling sync is sticky across additional opens", v))
+        else:
+            ins = [c for c in calls if "VacantEntry" in c[0] and "insert" in c[0]]
+            if not ins:
+                continue  # the store callback failed: error return, nothing inserted
+            n_vac += 1
+            if not called_cb:
+                problems.append(("the first open loads the document from the store", "structural"))
+            st = ins[0][1][1]
+            m = _re.match(r"^\(mk_[A-Za-z_]*OpenReplica\S* (.+)\)$", st)
+            if not m:
+                problems.append(("the first open inserts a fresh state", "structural: %s" % st[:80]))
+                continue
+            nq += 1
+            v, _ = solve(smt.script("(and %s (not (and (= %s %s))))" % (pcs, "true", "true")))
+            parts = Exec.split_args(st[1:-1].replace(" ", ",", 0)) if False else None
+            # the aggregate's operands, in field order: info, sync, handles
+            ops = _split_sexpr_args(st)
+            if len(ops) != 3 or not ("int_1" in ops[2] or "1_usize" in ops[2] or "k_1" in ops[2]):
+                problems.append(("the first open holds exactly one handle", "structural: %s" % (ops[2] if len(ops) == 3 else st)[:80]))
+            if len(ops) == 3:
+                v, _ = solve(smt.script("(and %s (not (= %s %s)))" % (pcs, mk_v2b(ops[1]), mk_v2b(opt_sync))))
+                if v != "unsat":
+                    problems.append(("the first open takes the sync flag from its options", v))
+    if n_occ == 0 or n_vac == 0:
+        problems.append(("open_with: both the open and the not-open case are explored (occ=%d, vac=%d)" % (n_occ, n_vac), "vacuous"))
+    verdict = "holds"
+    if any(p[1] in ("inconclusive", "vacuous") for p in problems):
+        verdict = "inconclusive"
+    if any(p[1] not in ("inconclusive", "vacuous") for p in problems):
+        verdict = "violated"
+    return dict(name=name, property="C14", verdict=verdict,
+                detail="close paths=%d, open_with paths=%d; problems: %s" % (close_paths, len(paths), problems or "none"),
+                functions=[closes[0].name, opens[0].name, "HashMap::entry / OccupiedEntry::{get_mut,remove_entry} / VacantEntry::insert (modelled)"],
+                queries=nq, witness="c14",
+                check_message=(problems[0][0] if problems else "open/close counting and sticky sync"))
+
+
+def _find_ops(text):
+    """all `(op_Ge|Gt|Le|Lt a b)` sub-terms of an s-expression text, with balanced arguments"""
+    import re as _re
+    out = []
+    for m in _re.finditer(r"\(op_(Ge|Gt|Le|Lt) ", text):
+        i = m.end()
+        args = []
+        for _ in range(2):
+            while i < len(text) and text[i] == " ":
+                i += 1
+            j = i
+            if text[i] == "(":
+                d = 0
+                while j < len(text):
+                    if text[j] == "(":
+                        d += 1
+                    elif text[j] == ")":
+                        d -= 1
+                        if d == 0:
+                            j += 1
+                            break
+                    j += 1
+            else:
+                while j < len(text) and text[j] not in " )":
+                    j += 1
+            args.append(text[i:j])
+            i = j
+        if len(args) == 2 and (m.group(1), args[0], args[1]) not in out:
+            out.append((m.group(1), args[0], args[1]))
+    return out
+
+
+def _split_sexpr_args(t):
+    """arguments of an s-expression `(f a b c)` at depth 1"""
+    t = t.strip()
+    assert t.startswith("(") and t.endswith(")")
+    inner = t[1:-1]
+    out, d, cur = [], 0, ""
+    for ch in inner:
+        if ch == "(":
+            d += 1
+        elif ch == ")":
+            d -= 1
+        if ch == " " and d == 0:
+            if cur:
+                out.append(cur)
+            cur = ""
+        else:
+            cur += ch
+    if cur:
+        out.append(cur)
+    return out[1:]
+
+
+QUERIES["C14"] = [q_c14_open_close]
+
+
+# ------------------------------------------------------------------------------------------------
+# C07: the actor propagates an imported capability to an open replica only through merge
+# ------------------------------------------------------------------------------------------------
+
+def q_c07_actor_import(bodies):
+    """C07: the `Action::ImportNamespace` handler of the store actor (a loop-free closure).
+    Decided over all its paths: the open replica's state is never written directly — the only
+    operation on it is `ReplicaInfo::merge_capability(&mut state.info, <the imported capability>)`
+    for the document named by that capability; it happens whenever the store reports `Upgraded`
+    and the document is open; the returned id is the imported capability's id.  (merge itself
+    never downgrades: Kani harness capability_merge.)"""
+    name = "c07_actor_import"
+    hits = [b for b in find_body(bodies, r"actor::<impl at src/actor\.rs:\d+:\d+: \d+:\d+>::on_action::\{closure#0\}::\{closure#\d+\}$", r"&mut Actor -> Result<keys::NamespaceId")
+            if "sync::Capability" in "\n".join(st for blk in b.blocks.values() for st in blk)]
+    if len(hits) != 1:
+        return dict(name=name, property="C07", verdict="inconclusive", detail="ImportNamespace closure not found uniquely (%d)" % len(hits), functions=[])
+    body = hits[0]
+    smt = Smt()
+    smt.fun("discr", 1)
+    smt.fun("fld_0", 1)
+    smt.fun("fld_1", 1)
+    calls_seen = []
+
+    def m_id(ex, v):
+        return "(%s %s)" % (smt.fun("cap_id", 1), mk_deref(v[0]))
+
+    def m_clone(ex, v):
+        return mk_deref(v[0])
+
+    models = dict(_tracing_off_models())
+    models.update({
+        r"sync::Capability::id$": m_id,
+        r"<sync::Capability as Clone>::clone$": m_clone,
+    })
+    ex = Exec(bodies, smt, models=models, max_paths=2000)
+    args = [smt.const("closure_env"), smt.const("actor_ref")]
+    try:
+        paths = ex.run(body, args)
+    except ValueError as e:
+        return dict(name=name, property="C07", verdict="inconclusive", detail=str(e), functions=[body.name])
+    cap = "(fld_0 %s)" % args[0]
+    problems, nq = [], 0
+    n_merge = n_upgraded_open = 0
+    for pc, ret, calls, env in paths:
+        pcs = " ".join(pc) if pc else "true"
+        if env.get("__writes"):
+            problems.append(("the open replica's state is changed only through merge_capability", "structural: direct write %s" % str(env["__writes"][0])[:100]))
+        imports = [c for c in calls if c[0].endswith("Store::import_namespace")]
+        getm = [c for c in calls if c[0].endswith("OpenReplicas::get_mut")]
+        merges = [c for c in calls if "merge_capability" in c[0] or c[0].endswith("Capability::merge")]
+        others = [c for c in calls if any("OpenReplica" in a or "stateref" in a for a in c[1]) and c not in getm and c not in merges]
+        if len(imports) != 1:
+            problems.append(("the capability is imported into the store exactly once", "structural"))
+            continue
+        nq += 1
+        v, _ = solve(smt.script("(and %s (not (= %s %s)))" % (pcs, imports[0][1][1], cap)))
+        if v != "unsat":
+            problems.append(("the store receives the imported capability", v))
+        for mcall in merges:
+            n_merge += 1
+            nq += 2
+            v, _ = solve(smt.script("(and %s (not (= %s %s)))" % (pcs, mcall[1][1], cap)))
+            if v != "unsat":
+                problems.append(("merge_capability receives the imported capability", v))
+            if not getm:
+                problems.append(("merge_capability is applied to the replica looked up for this document", "structural"))
+            else:
+                v, _ = solve(smt.script("(and %s (not (= %s (cap_id %s))))" % (pcs, mk_deref(getm[0][1][1]), cap)))
+                if v != "unsat":
+                    problems.append(("the open replica is looked up by the imported capability's id", v))
+        # Upgraded (discriminant 1) and open (get_mut Ok = discriminant 0) => merged
+        upgraded = any(c.startswith("(= (discr (fld_0 (as_Continue") and c.endswith("k_int_1)") for c in pc)
+        if getm:
+            open_ok = any(c.startswith("(= (discr (call_OpenReplicas__get_mut") and c.endswith("k_int_0)") for c in pc)
+            if upgraded and open_ok:
+                n_upgraded_open += 1
+                if not merges:
+                    problems.append(("an upgrade reported by the store is merged into the open replica", "structural"))
+    if n_merge == 0:
+        problems.append(("some path merges the capability into the open replica", "vacuous"))
+    verdict = "holds"
+    if any(p[1] in ("inconclusive", "vacuous") for p in problems):
+        verdict = "inconclusive"
+    if any(p[1] not in ("inconclusive", "vacuous") for p in problems):
+        verdict = "violated"
+    return dict(name=name, property="C07", verdict=verdict,
+                detail="paths=%d, merge sites reached=%d; problems: %s" % (len(paths), n_merge, problems or "none"),
+                functions=[body.name, "Store::import_namespace / OpenReplicas::get_mut / ReplicaInfo::merge_capability (uninterpreted)"],
+                queries=nq, witness="c07a",
+                check_message=(problems[0][0] if problems else "actor propagates imported capabilities only through merge"))
+
+
+QUERIES["C07"] = [q_c07_actor_import]
+
+
+# ------------------------------------------------------------------------------------------------
+# C12: the remote-insert event of the reconciliation path carries the callback's arguments
+# ------------------------------------------------------------------------------------------------
+
+def q_c12_event_fields(bodies):
+    """C12: the closure that builds the subscriber event for an entry applied by a reconciliation
+    message (`Replica::sync_process_message`, on_insert callback).  Decided: the event is a
+    `RemoteInsert` whose `entry` is (a clone of) the applied entry, `from` the providing peer,
+    `namespace` the replica's namespace, `remote_content_status` the status delivered with the entry,
+    and `should_download` = `DownloadPolicy::matches(policy, entry.entry())`."""
+    import re as _re
+    name = "c12_event_fields"
+    hits = find_body(bodies, r"sync_process_message::\{closure#0\}::\{closure#1\}::\{closure#0\}::\{closure#0\}$", r"-> sync::Event")
+    if len(hits) != 1:
+        return dict(name=name, property="C12", verdict="inconclusive", detail="event closure not found uniquely (%d)" % len(hits), functions=[])
+    body = hits[0]
+    # captured variables by name -> field index of the closure environment
+    cap = {}
+    for var, expr in body.debug.items():
+        m = _re.match(r"^\(\*\(_1\.(\d+): .+\)\)$", expr)
+        if m:
+            cap[var] = m.group(1)
+    need = ["download_policy", "entry", "from_peer", "my_namespace", "content_status"]
+    if any(v not in cap for v in need):
+        return dict(name=name, property="C12", verdict="inconclusive", detail="captures not identified: %s" % cap, functions=[body.name])
+    smt = Smt()
+    for i in range(6):
+        smt.fun("fld_%d" % i, 1)
+    smt.fun("policy_matches", 2)
+    models = {
+        r"SignedEntry::entry$": lambda ex, v: "(ref (fld_1 %s))" % mk_deref(v[0]),
+        r"DownloadPolicy::matches$": lambda ex, v: "(policy_matches %s %s)" % (mk_deref(v[0]), mk_deref(v[1])),
+        r"<sync::SignedEntry as Clone>::clone$": lambda ex, v: mk_deref(v[0]),
+    }
+    # the aggregate keeps field names: read them from the statement text
+    agg = None
+    for blk in body.blocks.values():
+        for st in blk:
+            m = _re.match(r"^_0 = sync::Event::(\w+) \{ (.+) \};$", st)
+            if m:
+                agg = (m.group(1), m.group(2))
+    if agg is None:
+        return dict(name=name, property="C12", verdict="violated", detail="the closure does not build an Event aggregate", functions=[body.name],
+                    witness="c12", check_message="the reconciliation path announces applied entries as RemoteInsert events", queries=0)
+    ex = Exec(bodies, smt, models=models)
+    env_arg = smt.const("closure_env")
+    # run to obtain the environment at the return
+    paths = ex.run(body, [env_arg])
+    if len(paths) != 1:
+        return dict(name=name, property="C12", verdict="inconclusive", detail="expected one path, got %d" % len(paths), functions=[body.name])
+    pc, ret, calls, env = paths[0]
+    fields = {}
+    for part in Exec.split_args(agg[1]):
+        k, v = part.split(":", 1)
+        fields[k.strip()] = ex.operand(env, v)
+    c = lambda var: mk_deref("(fld_%s %s)" % (cap[var], env_arg))  # noqa: the captured value (captures are references)
+    want = {
+        "namespace": c("my_namespace"),
+        "entry": c("entry"),
+        "from": c("from_peer"),
+        "remote_content_status": c("content_status"),
+        "should_download": "(policy_matches %s (fld_1 %s))" % (c("download_policy"), c("entry")),
+    }
+    problems, nq = [], 0
+    if agg[0] != "RemoteInsert":
+        problems.append(("entries applied by a reconciliation message are announced as RemoteInsert", "structural: %s" % agg[0]))
+    for k, w in want.items():
+        if k not in fields:
+            problems.append(("the event has a field %s" % k, "structural"))
+            continue
+        nq += 1
+        v, _ = solve(smt.script("(not (= %s %s))" % (fields[k], w)))
+        if v != "unsat":
+            problems.append(("event field `%s` is the corresponding callback argument / policy decision" % k, v))
+    verdict = "holds"
+    if any(p[1] == "inconclusive" for p in problems):
+        verdict = "inconclusive"
+    if any(p[1] != "inconclusive" for p in problems):
+        verdict = "violated"
+    return dict(name=name, property="C12", verdict=verdict, detail="fields=%s; problems: %s" % (sorted(fields), problems or "none"),
+                functions=[body.name, "DownloadPolicy::matches (uninterpreted: decided by the Kani harness policy_matches)"], queries=nq, witness="c12",
+                check_message=(problems[0][0] if problems else "remote insert event fields"))
+
+
+QUERIES["C12"] = [q_c12_event_fields]
+
+
+# ------------------------------------------------------------------------------------------------
+# C16: removing a document clears every per-document table
+# ------------------------------------------------------------------------------------------------
+
+def _tables_fields():
+    """field order of `struct Tables` (src/store/fs/tables.rs), read from the current source"""
+    import re as _re
+    src = open("/repo/src/store/fs/tables.rs").read()
+    m = _re.search(r"pub struct Tables<'tx> \{(.*?)\n\}", src, _re.S)
+    names = _re.findall(r"pub (\w+):", m.group(1)) if m else []
+    return names
+
+
+def q_c16_remove_tables(bodies):
+    """C16: the closure of `Store::remove_replica` that runs inside the write transaction.
+    Decided over all its paths: on the path that reports success, every table of `Tables` that holds
+    per-document rows (all but `authors`) is the receiver of a removing operation whose key/range is
+    derived from the removed namespace (records / by-key: `retain_in` over `RecordsBounds::namespace` /
+    `ByKeyBounds::namespace` with a predicate that keeps nothing; the others: `remove`/`remove_all`/
+    `retain_in`), and `authors` is not touched.  (What those ranges contain: Kani harnesses
+    bounds_namespace / bounds_bykey.)  `remove_replica` itself refuses open documents first."""
+    import re as _re
+    name = "c16_remove_tables"
+    hits = find_body(bodies, r"::remove_replica::\{closure#0\}$", r"&mut Tables<'_> -> Result<\(\), anyhow::Error>")
+    outer = find_body(bodies, r"store::fs::<impl at src/store/fs\.rs:\d+:\d+: \d+:\d+>::remove_replica$")
+    fields = _tables_fields()
+    if len(hits) != 1 or len(outer) != 1 or "authors" not in fields:
+        return dict(name=name, property="C16", verdict="inconclusive", detail="bodies/fields not found (%d, %d, %s)" % (len(hits), len(outer), fields), functions=[])
+    body = hits[0]
+    smt = Smt()
+    for i in range(len(fields)):
+        smt.fun("fld_%d" % i, 1)
+    models = dict(_tracing_off_models())
+    ex = Exec(bodies, smt, models=models, max_paths=4000)
+    args = [smt.const("closure_env"), smt.const("tables_ref")]
+    try:
+        paths = ex.run(body, args)
+    except ValueError as e:
+        return dict(name=name, property="C16", verdict="inconclusive", detail=str(e), functions=[body.name])
+    ns = mk_deref("(fld_0 %s)" % args[0])
+    REMOVERS = ("retain_in", "retain", "remove_all", "remove", "extract_from_if", "extract_if", "pop_first", "pop_last")
+    problems, nq = [], 0
+    ok_paths = 0
+    for pc, ret, calls, env in paths:
+        # success path: the closure returns Result::Ok(())
+        if "mk_Result" not in ret or "Ok" not in ret:
+            continue
+        ok_paths += 1
+        touched = {}
+        for callee, vals, _pc in calls:
+            m = _re.search(r"(?:Table|MultimapTable)::<.*?>::(\w+)(?:::<.*>)?$", callee)
+            if not m or not vals:
+                continue
+            m2 = _re.match(r"^\(ref \(fld_(\d+) \(deref %s\)\)\)$" % _re.escape(args[1]), vals[0])
+            if not m2:
+                continue
+            idx = int(m2.group(1))
+            if m.group(1) in REMOVERS:
+                touched.setdefault(idx, []).append((m.group(1), vals))
+        # pre-state: table i may hold rows of the removed document (free Boolean has_row_i); a removing
+        # operation keyed by the removed namespace clears them; the solver decides whether any can survive
+        post = []
+        cap_ref = "(fld_0 %s)" % args[0]
+        for i, fname in enumerate(fields):
+            if fname == "authors":
+                if i in touched:
+                    problems.append(("removing a document does not touch the author keys", "structural"))
+                continue
+            hv = "has_row_%s" % fname
+            if ("(declare-const %s Bool)" % hv) not in smt.decls:
+                smt.decls.append("(declare-const %s Bool)" % hv)
+            cleared = False
+            for op, vals in touched.get(i, []):
+                if any((ns in v) or (cap_ref in v) for v in vals[1:]):
+                    cleared = True
+            post.append((fname, "false" if cleared else hv))
+        pcs = " ".join(pc) if pc else "true"
+        for fname, term in post:
+            nq += 1
+            v, _ = solve(smt.script("(and %s %s)" % (pcs, term)))
+            if v == "sat":
+                problems.append(("removing a document clears its rows in table `%s`" % fname, "sat"))
+            elif v != "unsat":
+                problems.append(("removing a document clears its rows in table `%s`" % fname, "inconclusive"))
+    if ok_paths == 0:
+        problems.append(("a success path exists", "vacuous"))
+    # the predicate closures of retain_in keep nothing
+    for cb in find_body(bodies, r"::remove_replica::\{closure#0\}::\{closure#\d+\}$", r"-> bool"):
+        txt = "\n".join(st for blk in cb.blocks.values() for st in blk)
+        if "_0 = const false;" not in txt:
+            problems.append(("the retain predicates of remove_replica keep nothing", "structural"))
+    # the outer function refuses open documents before touching the tables
+    otxt = "\n".join(st for blk in outer[0].blocks.values() for st in blk)
+    if "HashSet::<keys::NamespaceId>::contains" not in otxt and "contains" not in otxt:
+        problems.append(("removing a document is refused while it is open", "structural"))
+    verdict = "holds"
+    if any(p[1] in ("inconclusive", "vacuous") for p in problems):
+        verdict = "inconclusive"
+    if any(p[1] not in ("inconclusive", "vacuous") for p in problems):
+        verdict = "violated"
+    return dict(name=name, property="C16", verdict=verdict, detail="tables=%s; success paths=%d of %d; problems: %s" % (fields, ok_paths, len(paths), problems or "none"),
+                functions=[body.name, outer[0].name], queries=max(nq, 1), witness="d7",
+                check_message=(problems[0][0] if problems else "remove_replica clears every per-document table"))
+
+
+QUERIES["C16"] = [q_c16_remove_tables]
+
+
+# ------------------------------------------------------------------------------------------------
+# C13: the stored author head only moves forward
+# ------------------------------------------------------------------------------------------------
+
+def q_c13_head_update(bodies):
+    """C13: the closure of `StoreInstance::entry_put` that writes the three record tables.  The
+    stored head of an author must be the greatest timestamp among the author's entries, so writing
+    an entry may replace the head row only by a timestamp that is not older than the stored one.
+    Ghost pre-state: the head row for (namespace, author) is absent, or present with timestamp OLD.
+    Decided per path that reports success: if the head row is (re)written, its timestamp is the
+    entry's and (row present => new >= OLD); if it is not written, the row is present and OLD >= new."""
+    import re as _re
+    name = "c13_head_update"
+    hits = find_body(bodies, r"::entry_put::\{closure#0\}$", r"&mut Tables<'_> -> Result<\(\), anyhow::Error>")
+    fields = _tables_fields()
+    if len(hits) != 1 or "latest_per_author" not in fields:
+        return dict(name=name, property="C13", verdict="inconclusive", detail="entry_put closure not found uniquely (%d)" % len(hits), functions=[])
+    body = hits[0]
+    K = fields.index("latest_per_author")
+    smt = Smt()
+    for i in range(len(fields)):
+        smt.fun("fld_%d" % i, 1)
+    smt.fun("discr", 1)
+    smt.fun("ts_of", 1)
+    smt.decls.append("(declare-fun ge (V V) Bool)")
+    args = [smt.const("closure_env"), smt.const("tables_ref")]
+    head_tbl = "(ref (fld_%d (deref %s)))" % (K, args[1])
+    state = {"get": None, "inserts": []}
+
+    def m_get(ex, v):
+        if v[0] == head_tbl:
+            state["get"] = smt.const("head_get_res")
+            return state["get"]
+        return smt.const("other_get")
+
+    def m_insert(ex, v):
+        if v[0] == head_tbl:
+            state["inserts"].append(v)
+        return smt.const("insert_res")
+
+    models = dict(_tracing_off_models())
+    models.update({
+        r"(Table::<.*>|ReadableTable<.*>>)::get(::<.*>)?$": m_get,
+        r"Table::<.*>::insert(::<.*>)?$": m_insert,
+        r"SignedEntry::timestamp$|Entry::timestamp$|Record::timestamp$": lambda ex, v: "(ts_of %s)" % mk_deref(v[0]),
+    })
+    ex = Exec(bodies, smt, models=models, max_paths=4000)
+    try:
+        paths = ex.run(body, args)
+    except ValueError as e:
+        return dict(name=name, property="C13", verdict="inconclusive", detail=str(e), functions=[body.name])
+    problems, nq, ok_paths = [], 0, 0
+    for pc, ret, calls, env in paths:
+        if "mk_Result" not in ret or "Ok" not in ret:
+            continue
+        ok_paths += 1
+        gets = [c for c in calls if _re.search(r"(Table::<.*>|ReadableTable<.*>>)::get", c[0]) and c[1] and c[1][0] == head_tbl]
+        ins = [c for c in calls if _re.search(r"Table::<.*>::insert", c[0]) and c[1] and c[1][0] == head_tbl]
+        pcs = " ".join(pc) if pc else "true"
+        extra = []
+        if gets:
+            # the value the code reads: `?` unpacking, Option match, guard.value().0
+            R = None
+            for c in calls:
+                pass
+            # find the constant returned for the head get on this path: it is the unique head_get_res_* symbol in pcs/terms
+            syms = sorted(set(_re.findall(r"head_get_res_\d+", pcs + " " + " ".join(" ".join(c[1]) for c in calls))))
+            if len(syms) != 1:
+                problems.append(("the stored head is read at most once per write", "inconclusive"))
+                continue
+            R = syms[0]
+            allterms = pcs + " " + " ".join(" ".join(c[1]) for c in calls)
+            mopt = _re.search(r"\(fld_0 \(as_Continue \((call_[A-Za-z0-9_]*branch) %s\)\)\)" % R, allterms)
+            if not mopt:
+                problems.append(("the head lookup is unpacked in a recognised way", "inconclusive"))
+                continue
+            OPT = mopt.group(0)
+            present = "(= (discr %s) k_int_1)" % OPT
+            mold = _re.search(r"\(fld_0 \((call_[A-Za-z0-9_]*value) \(ref \(fld_0 \(as_Some %s\)\)\)\)\)" % _re.escape(OPT), allterms)
+            if not mold:
+                # the stored timestamp is never looked at
+                OLD = smt.const("old_head_ts")
+            else:
+                OLD = mold.group(0)
+        else:
+            present = smt.const("head_present_b")
+            smt.decls[-1] = "(declare-const %s Bool)" % present
+            OLD = smt.const("old_head_ts")
+        # order operators that appear in the path condition, defined over one total preorder `ge`
+        for op, a, b2 in _find_ops(pcs):
+            t = "(op_%s %s %s)" % (op, a, b2)
+            d = {"Ge": "(ge %s %s)" % (a, b2), "Gt": "(not (ge %s %s))" % (b2, a), "Le": "(ge %s %s)" % (b2, a), "Lt": "(not (ge %s %s))" % (a, b2)}[op]
+            extra.append("(= (v2b %s) %s)" % (t, d))
+        if ins:
+            val = ins[0][1][2]
+            ops = _split_sexpr_args(val) if val.startswith("(mk_tuple") else []
+            NEW = ops[0] if ops else val
+        else:
+            NEW = "(ts_of %s)" % mk_deref("(fld_0 %s)" % args[0]) if False else None
+        # the entry's timestamp as the code computes it (any ts_of term in this path)
+        tsn = sorted(set(_re.findall(r"\(ts_of [^()]*(?:\([^()]*(?:\([^()]*\)[^()]*)*\)[^()]*)*\)", pcs + " " + " ".join(" ".join(c[1]) for c in calls))))
+        ENTRY_TS = tsn[0] if tsn else smt.const("entry_ts")
+        extra.append("(or (ge %s %s) (ge %s %s))" % (ENTRY_TS, OLD, OLD, ENTRY_TS))
+        ctx = "(and true %s %s)" % (pcs, " ".join(extra))
+        if ins:
+            nq += 2
+            v, _ = solve(smt.script("(and %s (not (= %s %s)))" % (ctx, NEW, ENTRY_TS)))
+            if v != "unsat":
+                problems.append(("a rewritten head carries the written entry's timestamp", v))
+            v, _ = solve(smt.script("(and %s %s (not (ge %s %s)))" % (ctx, present, ENTRY_TS, OLD)))
+            if v != "unsat":
+                problems.append(("an entry older than the author's stored head does not lower the head", v))
+        else:
+            nq += 1
+            v, _ = solve(smt.script("(and %s (not (and %s (ge %s %s))))" % (ctx, present, OLD, ENTRY_TS)))
+            if v != "unsat":
+                problems.append(("the head is left alone only if a head that is not older is already stored", v))
+    if ok_paths == 0:
+        problems.append(("a success path exists", "vacuous"))
+    verdict = "holds"
+    if any(p[1] in ("inconclusive", "vacuous") for p in problems):
+        verdict = "inconclusive"
+    if any(p[1] not in ("inconclusive", "vacuous") for p in problems):
+        verdict = "violated"
+    return dict(name=name, property="C13", verdict=verdict, detail="success paths=%d of %d; problems: %s" % (ok_paths, len(paths), problems or "none"),
+                functions=[body.name, "redb Table::get/insert on latest_per_author (modelled: ghost head row)"], queries=nq, witness="d4",
+                check_message=(problems[0][0] if problems else "the stored author head only moves forward"))
+
+
+QUERIES["C13"] = [q_c13_head_update]
